@@ -48,6 +48,7 @@ def run(fb, rep, tier):
     c3_change_detection(fb, rep)
     c4_set_ordering(fb, rep)
     c5_recompute_dependencies(fb, rep)
+    c6_depth_propagation(fb, rep)
 
 
 def c4_set_ordering(fb, rep):
@@ -511,3 +512,60 @@ def c5_recompute_dependencies(fb, rep):
                                % (w.split('::')[-1], what, '/'.join(flds), 'the node' if what.startswith('the node') else 'its parent'),
                                ok, R.site(g, e), detail, f.sname)
     rep.floor(clause, 'recompute dependencies of updateScores', n_dep, 4)
+
+
+# ---------------------------------------------------------------------------------------------------------------
+# C19.6  depth is relaxed over every parent and every change is pushed to every child
+
+def c6_depth_propagation(fb, rep):
+    """K13: a node's depth is 1 + the smallest parent depth.  updateDepth relaxes it over the parents and, when it
+    changed, must push the change to *every* child (a child filtered out keeps a depth that no longer has a
+    witness parent); a new parent link must trigger the relaxation."""
+    clause = 'C19.6'
+    nm = NODE + '::updateDepth'
+    f = fb.find1(nm)
+    if rep.need(clause, f, nm) is None:
+        return
+    this = {'k': 'this'}
+    writes = []
+    for b, i, e in f.events():
+        if e.get('k') == 'asg' and _node_field(_strip(e.get('l')) or {}) == 'depth' and _is_this((_strip(e.get('l')) or {}).get('b')):
+            writes.append((b, i, e))
+    rep.floor(clause, 'writes of depth in updateDepth', len(writes), 1)
+    # the relaxation: `if (depth > X) depth = X` with the same X
+    for b, i, e in writes:
+        gs = [(c, side) for c, side in G.guard_trees(f, set(f.blocks), b) if not any(n.get('k') == 'var' and str(n.get('n', '')).startswith('__begin') for n in walk(c))]
+        rel = [c for c, side in gs if side and c.get('k') == 'bin' and c.get('op') in ('>', '<')]
+        ok = False
+        for c in rel:
+            l, r = (_strip(c.get('l')), _strip(c.get('r'))) if c.get('op') == '>' else (_strip(c.get('r')), _strip(c.get('l')))
+            if isinstance(l, dict) and _node_field(l) == 'depth' and _is_this(l.get('b')) and show(r, 200) == show(_strip(e.get('r')), 200):
+                ok = True
+        rep.ob(clause, 'K10 relaxation agreement', 'updateDepth lowers depth to exactly the bound it was compared with', ok, R.site(f, e),
+               'guards: %s; assigned: %s' % ([('' if s_ else '!') + show(c, 60) for c, s_ in gs], show(e.get('r'), 60)), f.sname)
+    # the changed flag is raised with every write
+    flags = {}
+    for b, i, e in f.events():
+        if e.get('k') == 'asg' and isinstance(_strip(e.get('l')), dict) and _strip(e['l']).get('k') == 'var' and (_strip(e.get('r')) or {}).get('cv') == 1:
+            flags.setdefault(_strip(e['l'])['id'], []).append(b)
+    flag = next((vid for vid, blks in flags.items() if all(wb in blks for wb, _, _ in writes)), None) if writes else None
+    rep.ob(clause, 'K13 completeness', 'updateDepth raises its changed flag in the same block as every write of depth', flag is not None, f.where,
+           'flag candidates: %s' % sorted(flags), f.sname)
+    # under the flag every child is visited
+    ok = False
+    detail = 'no recursive call on the elements of children'
+    for b, i, e in f.events():
+        if e.get('k') == 'call' and cname(e) == nm and _element_of_children(f, e.get('recv'), this):
+            gs = _guards_after(f, f.entry, b)
+            bad = [c for c, side in gs if not (side and isinstance(_strip(c), dict) and _strip(c).get('k') == 'var' and _strip(c).get('id') == flag)]
+            detail = 'guards: %s' % [('' if s_ else '!') + show(c, 60) for c, s_ in gs]
+            if not bad:
+                ok = True
+                break
+    rep.ob(clause, 'K13 completeness', 'updateDepth: when the depth changed, every child is updated (no filter on the children)', ok, f.where, detail, f.sname)
+    # a new parent link triggers the relaxation
+    ap_ = fb.find1(NODE + '::addParent')
+    if rep.need(clause, ap_, NODE + '::addParent') is not None:
+        ins = [(b, i) for b, i, e in ap_.events() if e.get('k') == 'call' and cname(e).split('::')[-1] in ('insert', 'emplace') and _node_field(_strip(e.get('recv')) or {}) == 'parents']
+        ok = bool(ins) and all(ap_.path_avoiding(pos, R.at_exit, R.is_named_call(nm)) is None for pos in ins)
+        rep.ob(clause, 'K2 must-call', 'addParent relaxes the depth after inserting the parent link on every path', ok, ap_.where, '%d insertion(s)' % len(ins), ap_.sname)
